@@ -265,51 +265,52 @@ Inductive op := OEnq (v : Z) | ODeq | OFront | OPop | OEmpty | OSize.
 
 Definition b2z (b : bool) : Z := if b then 1 else 0.
 
-Definition finish {A} (o : outcome A) (k : A -> prog unit) : prog unit :=
+(** a thread whose loop fuel is exhausted (or that hit undefined behaviour) stops: [false] *)
+Definition finish {A} (o : outcome A) (k : A -> prog bool) : prog bool :=
   match o with
   | Done a => k a
-  | OutOfFuel => Emit [EvCli "outoffuel" []] (Ret tt)
-  | UB => Emit [EvCli "ub" []] (Ret tt)
+  | OutOfFuel => Emit [EvCli "outoffuel" []] (Ret false)
+  | UB => Emit [EvCli "ub" []] (Ret false)
   end.
 
-Definition run_op (q : qcfg) (fuel : nat) (o : op) : prog unit :=
+Definition run_op (q : qcfg) (fuel : nat) (o : op) : prog bool :=
   match o with
   | OEnq v =>
       Emit [EvCli "inv_enq" [v]]
-        (bind (enqueue q fuel v) (fun r => finish r (fun b => Emit [EvCli "ret_enq" [b2z b]] (Ret tt))))
+        (bind (enqueue q fuel v) (fun r => finish r (fun b => Emit [EvCli "ret_enq" [b2z b]] (Ret true))))
   | ODeq =>
       Emit [EvCli "inv_deq" []]
         (bind (dequeue q fuel) (fun r => finish r (fun x =>
            match x with
-           | Some v => Emit [EvCli "ret_deq" [1; v]] (Ret tt)
-           | None => Emit [EvCli "ret_deq" [0; 0]] (Ret tt)
+           | Some v => Emit [EvCli "ret_deq" [1; v]] (Ret true)
+           | None => Emit [EvCli "ret_deq" [0; 0]] (Ret true)
            end)))
   | OFront =>
       Emit [EvCli "inv_front" []]
         (bind (front q fuel) (fun r => finish r (fun x =>
            match x with
-           | Some v => Emit [EvCli "ret_front" [1; v]] (Ret tt)
-           | None => Emit [EvCli "ret_front" [0; 0]] (Ret tt)
+           | Some v => Emit [EvCli "ret_front" [1; v]] (Ret true)
+           | None => Emit [EvCli "ret_front" [0; 0]] (Ret true)
            end)))
   | OPop =>
       Emit [EvCli "inv_pop" []]
         (bind (dequeue q fuel) (fun r => finish r (fun x =>
            match x with
-           | Some _ => Emit [EvCli "ret_pop" [1]] (Ret tt)
-           | None => Emit [EvCli "ret_pop" [0]] (Ret tt)
+           | Some _ => Emit [EvCli "ret_pop" [1]] (Ret true)
+           | None => Emit [EvCli "ret_pop" [0]] (Ret true)
            end)))
   | OEmpty =>
       Emit [EvCli "inv_empty" []]
-        (bind (empty q fuel) (fun r => finish r (fun b => Emit [EvCli "ret_empty" [b2z b]] (Ret tt))))
+        (bind (empty q fuel) (fun r => finish r (fun b => Emit [EvCli "ret_empty" [b2z b]] (Ret true))))
   | OSize =>
       Emit [EvCli "inv_size" []]
-        (bind (size q) (fun n => Emit [EvCli "ret_size" [n]] (Ret tt)))
+        (bind (size q) (fun n => Emit [EvCli "ret_size" [n]] (Ret true)))
   end.
 
 Fixpoint run_ops (q : qcfg) (fuel : nat) (os : list op) : prog unit :=
   match os with
   | [] => Ret tt
-  | o :: r => bind (run_op q fuel o) (fun _ => run_ops q fuel r)
+  | o :: r => bind (run_op q fuel o) (fun ok => if ok then run_ops q fuel r else Ret tt)
   end.
 
 Definition thread_prog (q : qcfg) (fuel : nat) (os : list op) : Conc.thread G V ev :=
